@@ -59,25 +59,25 @@ func init() {
 					}
 				case *ast.SwitchStmt:
 					if x.Tag == nil && order == nil {
-						var o []string
+						var conds []ast.Expr
 						for _, st := range x.Body.List {
-							cc := st.(*ast.CaseClause)
-							if len(cc.List) == 1 {
-								switch notNil(cc.List[0]) {
-								case "operation.Context":
-									o = append(o, "0")
-								case "r.Context":
-									o = append(o, "1")
-								default:
-									o = append(o, "9")
-								}
+							if cc := st.(*ast.CaseClause); len(cc.List) == 1 {
+								conds = append(conds, cc.List[0])
 							}
 						}
-						if len(o) > 0 {
-							order = o
-						}
+						order = ctxOrder(conds, notNil)
 					}
 				case *ast.IfStmt:
+					if order == nil {
+						// the same choice written as an if / else-if chain
+						var conds []ast.Expr
+						for is := x; is != nil; {
+							conds = append(conds, is.Cond)
+							next, _ := is.Else.(*ast.IfStmt)
+							is = next
+						}
+						order = ctxOrder(conds, notNil)
+					}
 					if client == "9" {
 						switch notNil(x.Cond) {
 						case "operation.Client":
@@ -97,4 +97,25 @@ func init() {
 		emit("/-- client/runtime.go Submit: the client the first `!= nil` test prefers (0 = operation.Client, 1 = r.client) -/")
 		emit("def c13ClientFirst : Nat := %s", client)
 	})
+}
+
+// ctxOrder: the order in which a chain of `!= nil` tests prefers operation.Context (0) and r.Context (1);
+// nil when the chain is about something else.
+func ctxOrder(conds []ast.Expr, notNil func(ast.Expr) string) []string {
+	var o []string
+	hit := false
+	for _, c := range conds {
+		switch notNil(c) {
+		case "operation.Context":
+			o, hit = append(o, "0"), true
+		case "r.Context":
+			o, hit = append(o, "1"), true
+		default:
+			o = append(o, "9")
+		}
+	}
+	if !hit {
+		return nil
+	}
+	return o
 }
